@@ -139,6 +139,12 @@ func FromIPLD[T Tokener](node datamodel.Node) (T, error) {
 		return zero, err
 	}
 
+	// An integer beyond the int64 range can't be a legal value of any token
+	// field, and binding it to an int64 field below would silently wrap it.
+	if err := checkIntegersFitInt64(info.tokenPayloadNode); err != nil {
+		return zero, err
+	}
+
 	// Replaces the datamodel.Node in tokenPayloadNode with a
 	// schema.TypedNode so that we can cast it to a *token.Token after
 	// unwrapping it.
@@ -199,6 +205,40 @@ func FromIPLD[T Tokener](node datamodel.Node) (T, error) {
 	}
 
 	return tkn, nil
+}
+
+// checkIntegersFitInt64 walks the node and returns an error if it contains an
+// integer that can't be represented as an int64.
+func checkIntegersFitInt64(node datamodel.Node) error {
+	switch node.Kind() {
+	case datamodel.Kind_Int:
+		if _, err := node.AsInt(); err != nil {
+			return fmt.Errorf("token contains an integer outside the int64 range: %w", err)
+		}
+	case datamodel.Kind_List:
+		it := node.ListIterator()
+		for !it.Done() {
+			_, v, err := it.Next()
+			if err != nil {
+				return err
+			}
+			if err := checkIntegersFitInt64(v); err != nil {
+				return err
+			}
+		}
+	case datamodel.Kind_Map:
+		it := node.MapIterator()
+		for !it.Done() {
+			_, v, err := it.Next()
+			if err != nil {
+				return err
+			}
+			if err := checkIntegersFitInt64(v); err != nil {
+				return err
+			}
+		}
+	}
+	return nil
 }
 
 // Encode marshals a Tokener to the format specified by the provided
